@@ -81,6 +81,42 @@ CHECKS = {
         "technique": "property-based testing (rapid), differential (batch vs standalone) + reference semantics",
         "assumptions": ["R-sem is the specification"],
     },
+    "C08": {
+        "runs": [_r("TestC08", 300, 20000, race=True, qt=1500, tt=6000)],
+        "rule": "rapid draws a world (generator G), a configuration (query cache on; engine default or weighted; breadth limit 1/2/10) and a history of "
+                "4-14 operations against the unchanged store on a fresh server: Check (sometimes a burst of 6 concurrent copies), BatchCheck, ListObjects, "
+                "with contexts, contextual tuples and requests derived from earlier ones (same request again, same subject/other object, same object/other "
+                "subject, other relation) so that cached sub-problems are reused under other paths. Oracle: every answer satisfies the reference semantics "
+                "(weighted engine with userset/wildcard subject: equals the same engine without caches). Non-trivial: some step was served with a cache hit "
+                "(counting cache wrapper) and the model has a non-direct rewrite. Distinct: hash of the case.",
+        "level_text": "exploration of request histories over a caching server against the reference semantics; bursts run on the real scheduler (-race in thorough)",
+        "technique": "property-based testing (rapid), stateful history vs reference semantics, counting cache wrapper for non-triviality",
+        "assumptions": ["R-sem is the specification (= the uncached answer, see C01)", "fresh server per case: caches start empty"],
+    },
+    "C09": {
+        "runs": [_r("TestC09", 250, 15000, race=True, qt=1500, tt=6000)],
+        "rule": "rapid draws a world, a configuration (check + list-objects iterator caches and shared iterators on, maxResults 2/5/1000, query cache drawn, "
+                "engine drawn) and a history of Check/ListObjects steps on a fresh server over a fault datastore placed below every cache layer. A faulted "
+                "step arms the datastore: at the n-th (1-6) tuple-iterator Next after arming the request's context is cancelled and, optionally, that Next "
+                "returns an error; the same request follows clean, optionally after a yield that lets background cache fills finish. Oracle: a faulted "
+                "request fails or answers per the reference; every clean request answers exactly per the reference (a partially read or failed read is "
+                "never served later). Non-trivial: a request was cut inside its reads and a later step was served from the cache. Distinct: hash of the case.",
+        "level_text": "exploration of histories with deterministic cancellation/fault triggers (n-th datastore read) against the reference semantics",
+        "technique": "property-based testing (rapid), stateful history with injected cancellation and read faults vs reference semantics",
+        "assumptions": ["the trigger counts datastore Next calls globally while armed (single foreground request at a time)",
+                        "R-sem is the specification"],
+    },
+    "C10": {
+        "runs": [_r("TestC10", 300, 20000, qt=1500, tt=6000)],
+        "rule": "rapid draws a world, every cache flag (query, check-iterator, list-objects-iterator, shared iterator, controller) and the engine, and 2-5 "
+                "rounds of: cached Check (and ListObjects) to populate caches, a Write/Delete chosen to flip the answer (grant the request directly or delete "
+                "the granting tuple), the same request cached (unjudged: may be stale by design) and with HIGHER_CONSISTENCY through Check, BatchCheck and "
+                "ListObjects. Oracle: every HIGHER_CONSISTENCY answer equals the reference for the store state at that moment. Non-trivial: a "
+                "HIGHER_CONSISTENCY Check follows a write that flipped its reference answer after the identical cached request ran. Distinct: hash of the case.",
+        "level_text": "exploration of write/read interleavings over all cache-flag combinations against the reference semantics of the current state",
+        "technique": "property-based testing (rapid), stateful history with writes vs reference model of the store + reference semantics",
+        "assumptions": ["ListUsers has no cache path and is covered by C06"],
+    },
     "C05": {
         "runs": [_r("TestC05", 3000, 160000)],
         "rule": "rapid draws a world (generator G) and 2-6 ListObjects calls: engine in {classic reverse expansion, its weighted-graph "
